@@ -64,8 +64,9 @@ def _nolostwake_rule(chk, prog):
                 v = fiber_of(n.args[0])
                 if v:
                     return frozenset(f for f in facts if not (f[0] == "popped" and f[1] == v))
-            if n.k == "call" and n.callee == "janet_ev_post_event" and len(n.args) >= 3:
-                m = strip_casts(n.args[2])
+            if n.k == "call" and ((n.callee == "janet_ev_post_event" and len(n.args) >= 3) or (n.callee == "janet_chan_post" and len(n.args) == 2)):
+                # (janet_chan_post(vm, msg): the hand-off to janet_thread_chan_cb, posted at once or after the last unlock)
+                m = strip_casts(n.args[-1])
                 if m.k == "ref":
                     srcs = [f[2] for f in facts if f[0] == "msgfrom" and f[1] == m.name]
                     return frozenset(f for f in facts if not (f[0] == "popped" and f[1] in srcs))
